@@ -19,7 +19,6 @@ import (
 	getsvc "github.com/nspcc-dev/neofs-node/pkg/services/object/get"
 	putsvc "github.com/nspcc-dev/neofs-node/pkg/services/object/put"
 	objutil "github.com/nspcc-dev/neofs-node/pkg/services/object/util"
-	"github.com/nspcc-dev/neofs-sdk-go/stat"
 	"github.com/nspcc-dev/neofs-sdk-go/client"
 	apistatus "github.com/nspcc-dev/neofs-sdk-go/client/status"
 	"github.com/nspcc-dev/neofs-sdk-go/container"
@@ -29,6 +28,7 @@ import (
 	protoobject "github.com/nspcc-dev/neofs-sdk-go/proto/object"
 	protostatus "github.com/nspcc-dev/neofs-sdk-go/proto/status"
 	sessionv2 "github.com/nspcc-dev/neofs-sdk-go/session/v2"
+	"github.com/nspcc-dev/neofs-sdk-go/stat"
 	"github.com/nspcc-dev/neofs-sdk-go/user"
 	"go.uber.org/zap"
 	"google.golang.org/grpc"
@@ -82,12 +82,13 @@ func (failingContainers) Get(cid.ID) (container.Container, error) {
 type srvFSChain struct {
 	cnrs *fakeContainers
 	fs   *fakeFSChain
+	r    *reach
 }
 
 func (x srvFSChain) Get(id cid.ID) (container.Container, error) { return x.cnrs.Get(id) }
-func (x srvFSChain) CurrentEpoch() uint64                         { return curEpoch }
-func (x srvFSChain) CurrentBlock() uint32                         { return 1000 }
-func (x srvFSChain) CurrentEpochDuration() uint64                 { return 240 }
+func (x srvFSChain) CurrentEpoch() uint64                       { return curEpoch }
+func (x srvFSChain) CurrentBlock() uint32                       { return 1000 }
+func (x srvFSChain) CurrentEpochDuration() uint64               { return 240 }
 func (x srvFSChain) InvokeContainedScript(tx *transaction.Transaction, h *block.Header, t *trigger.Type, b *bool) (*result.Invoke, error) {
 	return x.fs.InvokeContainedScript(tx, h, t, b)
 }
@@ -103,6 +104,7 @@ func (x srvFSChain) ForEachContainerNodePublicKeyInLastTwoEpochs(id cid.ID, f fu
 	return x.ForEachContainerNodePublicKey(id, f)
 }
 func (x srvFSChain) SelectContainerNodes(cid.ID) ([][]netmap.NodeInfo, []uint, []iec.Rule, error) {
+	x.r.hit("select-nodes") // SEARCH with TTL>1 starts its work here
 	return nil, nil, nil, errors.New("C28 harness: no network map")
 }
 func (x srvFSChain) IsOwnPublicKey([]byte) bool      { return false }
@@ -154,7 +156,10 @@ type getStreamFake struct {
 	resps []*protoobject.GetResponse
 }
 
-func (s *getStreamFake) Send(r *protoobject.GetResponse) error { s.resps = append(s.resps, r); return nil }
+func (s *getStreamFake) Send(r *protoobject.GetResponse) error {
+	s.resps = append(s.resps, r)
+	return nil
+}
 
 type rangeStreamFake struct {
 	baseStream
@@ -196,7 +201,7 @@ func newServerSUT() *srvSUT {
 		putsvc.WithContainerSource(failingContainers{}),
 		putsvc.WithLogger(zap.NewNop()),
 	)
-	s.srv = objectsvc.New(fakeHandlers{r: s.r, put: put}, srvFSChain{cnrs: s.cnrs, fs: s.fs}, srvStorage{s.r}, nil,
+	s.srv = objectsvc.New(fakeHandlers{r: s.r, put: put}, srvFSChain{cnrs: s.cnrs, fs: s.fs, r: s.r}, srvStorage{s.r}, nil,
 		nodeKey, nopMetrics{}, s.checker, &s.svc, noClients{}, zap.NewNop())
 	return s
 }
